@@ -1,44 +1,397 @@
 package gosym
 
 import (
+	"fmt"
 	"go/types"
 
 	"golang.org/x/tools/go/ssa"
 )
 
+// Cooperative goroutine model.  Every simulated goroutine runs on its own host
+// goroutine, but exactly one of them holds the baton at any time, so the
+// interpreter state is never accessed concurrently.  Unbuffered channels
+// rendezvous, buffered channels are queues, mutexes have owners.  A goroutine
+// that blocks hands the baton to a runnable one (a choice point when several
+// are runnable); when none is runnable the program is deadlocked.
+//
+// Data races are detected with vector clocks (happens-before edges: go
+// statement, channel send/receive/close, mutex unlock/lock): two accesses to
+// the same memory cell, at least one a write, that are not ordered are a race,
+// whatever the schedule actually taken.
+
+type simG struct {
+	id      int
+	wake    chan struct{}
+	done    bool
+	blocked bool
+	vc      []int
+	// saved interpreter state while not running
+	frame *Frame
+	depth int
+	// value handed over by a channel partner
+	xval  V
+	xok   bool
+	xfrom []int // vector clock received
+	name  string
+}
+
 type chanWaiter struct {
-	g   int
+	g   *simG
 	val V
-	ok  bool
-	done bool
 }
 
 type scheduler struct {
-	cur    int
-	raceOn bool
+	in      *Interp
+	gs      []*simG
+	cur     int
+	raceOn  bool
+	abort   interface{} // set when the path is being torn down
+	races   []string
+	mutexes map[*Cell]*simMutex
 }
 
-func (s *scheduler) note(in *Interp, c *Cell, write bool) {}
+type simMutex struct {
+	owner   *simG
+	waiters []*simG
+	vc      []int
+}
+
+type raceInfo struct {
+	wG, wC int
+	reads  []int // pairs (g, clock)
+	wWhere string
+}
+
+type tearDown struct{}
+
+func (in *Interp) ensureSched() *scheduler {
+	if in.sched == nil {
+		s := &scheduler{in: in, mutexes: map[*Cell]*simMutex{}}
+		g0 := &simG{id: 0, wake: make(chan struct{}, 1), vc: []int{1}, name: "main"}
+		s.gs = []*simG{g0}
+		in.sched = s
+	}
+	return in.sched
+}
+
+func (s *scheduler) curG() *simG { return s.gs[s.cur] }
+
+func joinVC(a, b []int) []int {
+	if len(b) > len(a) {
+		a = append(a, make([]int, len(b)-len(a))...)
+	}
+	for i, v := range b {
+		if v > a[i] {
+			a[i] = v
+		}
+	}
+	return a
+}
+
+func (s *scheduler) tick(g *simG) {
+	for len(g.vc) <= g.id {
+		g.vc = append(g.vc, 0)
+	}
+	g.vc[g.id]++
+}
+
+func (s *scheduler) note(in *Interp, c *Cell, write bool) {
+	if len(s.gs) < 2 {
+		return
+	}
+	g := s.curG()
+	ri := c.race
+	if ri == nil {
+		ri = &raceInfo{wG: -1}
+		c.race = ri
+		in.trailFn(func() { c.race = nil })
+	}
+	hb := func(og, oc int) bool { return og == g.id || (og < len(g.vc) && g.vc[og] >= oc) }
+	where := in.where()
+	if ri.wG >= 0 && !hb(ri.wG, ri.wC) {
+		s.report(c, fmt.Sprintf("write by goroutine %d in %s", ri.wG, ri.wWhere), where, write)
+	}
+	if write {
+		for i := 0; i+1 < len(ri.reads); i += 2 {
+			if !hb(ri.reads[i], ri.reads[i+1]) {
+				s.report(c, fmt.Sprintf("read by goroutine %d", ri.reads[i]), where, true)
+			}
+		}
+		for len(g.vc) <= g.id {
+			g.vc = append(g.vc, 0)
+		}
+		ri.wG, ri.wC, ri.wWhere = g.id, g.vc[g.id], where
+		ri.reads = ri.reads[:0]
+	} else {
+		for len(g.vc) <= g.id {
+			g.vc = append(g.vc, 0)
+		}
+		for i := 0; i+1 < len(ri.reads); i += 2 {
+			if ri.reads[i] == g.id {
+				ri.reads[i+1] = g.vc[g.id]
+				return
+			}
+		}
+		ri.reads = append(ri.reads, g.id, g.vc[g.id])
+	}
+}
+
+func (s *scheduler) report(c *Cell, prev, where string, write bool) {
+	top := c
+	for top.Parent != nil {
+		top = top.Parent
+	}
+	kind := "read"
+	if write {
+		kind = "write"
+	}
+	msg := fmt.Sprintf("data race on %s (%s): %s vs %s by goroutine %d in %s", top.Tag, typeString(c.T), prev, kind, s.cur, where)
+	for _, r := range s.races {
+		if r == msg {
+			return
+		}
+	}
+	if len(s.races) < 20 {
+		s.races = append(s.races, msg)
+	}
+}
+
+// ---- scheduling ----
+
+func (s *scheduler) runnable() []*simG {
+	var r []*simG
+	for _, g := range s.gs {
+		if !g.done && !g.blocked {
+			r = append(r, g)
+		}
+	}
+	return r
+}
+
+// block parks the current goroutine until another one makes it runnable and
+// the baton comes back.
+func (s *scheduler) block() {
+	in := s.in
+	in.specAbortIf("blocking operation in region")
+	g := s.curG()
+	g.blocked = true
+	s.yieldTo(s.pickNext(g))
+}
+
+func (s *scheduler) pickNext(except *simG) *simG {
+	var cands []*simG
+	for _, g := range s.gs {
+		if !g.done && !g.blocked && g != except {
+			cands = append(cands, g)
+		}
+	}
+	if len(cands) == 0 {
+		return nil
+	}
+	if len(cands) == 1 {
+		return cands[0]
+	}
+	return cands[s.in.choose(len(cands))]
+}
+
+// yieldTo hands the baton to next and waits until it is given back.
+func (s *scheduler) yieldTo(next *simG) {
+	in := s.in
+	g := s.curG()
+	if next == nil {
+		// nobody can run: deadlock (unless the current goroutine is runnable)
+		if !g.blocked {
+			return
+		}
+		g.blocked = false
+		panic(&goPanic{Val: IfaceV{T: types.Typ[types.String], V: StrV{S: "all goroutines are asleep - deadlock!"}},
+			Msg: "fatal error: all goroutines are asleep - deadlock!", Stack: in.stackString()})
+	}
+	g.frame, g.depth = in.curFrame, in.depth
+	s.cur = next.id
+	in.curFrame, in.depth = next.frame, next.depth
+	next.wake <- struct{}{}
+	<-g.wake
+	// resumed
+	s.cur = g.id
+	in.curFrame, in.depth = g.frame, g.depth
+	if s.abort != nil {
+		panic(&tearDown{})
+	}
+}
 
 func (in *Interp) spawn(fr *Frame, fn V, args []V, site ssa.Instruction) {
-	in.unsupported("go statement")
+	in.specAbortIf("go in region")
+	s := in.ensureSched()
+	parent := s.curG()
+	g := &simG{id: len(s.gs), wake: make(chan struct{}, 1), name: fmt.Sprintf("g%d", len(s.gs))}
+	s.tick(parent)
+	g.vc = append([]int{}, parent.vc...)
+	for len(g.vc) <= g.id {
+		g.vc = append(g.vc, 0)
+	}
+	g.vc[g.id] = 1
+	s.gs = append(s.gs, g)
+	in.GoroutinesStarted++
+	go func() {
+		<-g.wake
+		if s.abort == nil {
+			func() {
+				defer func() {
+					if r := recover(); r != nil {
+						if _, ok := r.(*tearDown); ok {
+							return
+						}
+						// pathEnd, uncaught goPanic or engine bug: tear the path down
+						if s.abort == nil {
+							s.abort = r
+						}
+					}
+				}()
+				s.cur = g.id
+				in.curFrame, in.depth = nil, 0
+				in.call(nil, fn, args, site)
+			}()
+		}
+		g.done = true
+		// hand the baton on: to a runnable goroutine, or back to main on teardown/deadlock
+		if s.abort != nil {
+			s.wakeForTeardown(g)
+			return
+		}
+		next := s.pickNextNoChoice(g)
+		if next == nil {
+			// everybody else is blocked: deadlock; report through main
+			s.abort = &goPanic{Val: IfaceV{T: types.Typ[types.String], V: StrV{S: "all goroutines are asleep - deadlock!"}},
+				Msg: "fatal error: all goroutines are asleep - deadlock!"}
+			s.wakeForTeardown(g)
+			return
+		}
+		s.cur = next.id
+		in.curFrame, in.depth = next.frame, next.depth
+		next.wake <- struct{}{}
+	}()
 }
+
+func (s *scheduler) pickNextNoChoice(except *simG) *simG {
+	for _, g := range s.gs {
+		if !g.done && !g.blocked && g != except {
+			return g
+		}
+	}
+	return nil
+}
+
+// wakeForTeardown passes the baton to some goroutine that has not finished so
+// that it can unwind; main (g0) is woken last and re-raises the abort value.
+func (s *scheduler) wakeForTeardown(from *simG) {
+	for i := len(s.gs) - 1; i >= 0; i-- {
+		g := s.gs[i]
+		if g != from && !g.done && g.id != 0 {
+			g.blocked = false
+			s.cur = g.id
+			g.wake <- struct{}{}
+			return
+		}
+	}
+	s.cur = 0
+	s.gs[0].blocked = false
+	s.gs[0].wake <- struct{}{}
+}
+
+// finish is called by the explorer (on main) when the harness function has
+// returned or panicked: remaining goroutines are torn down.
+func (s *scheduler) finish(cause interface{}) {
+	if s.abort == nil {
+		s.abort = cause
+		if s.abort == nil {
+			s.abort = &tearDown{}
+		}
+	}
+	for {
+		var pending *simG
+		for _, g := range s.gs {
+			if g.id != 0 && !g.done {
+				pending = g
+				break
+			}
+		}
+		if pending == nil {
+			return
+		}
+		pending.blocked = false
+		s.cur = pending.id
+		pending.wake <- struct{}{}
+		<-s.gs[0].wake
+	}
+}
+
+// quiesce lets every runnable goroutine other than the current one run until
+// it blocks or finishes (in real Go they run concurrently and get there on
+// their own).
+func (s *scheduler) quiesce() {
+	for rounds := 0; rounds < 1000; rounds++ {
+		g := s.curG()
+		var next *simG
+		for _, o := range s.gs {
+			if o != g && !o.done && !o.blocked {
+				next = o
+				break
+			}
+		}
+		if next == nil {
+			return
+		}
+		s.yieldTo(next)
+	}
+}
+
+// LiveGoroutines counts simulated goroutines (other than main) not finished.
+func (s *scheduler) live() int {
+	n := 0
+	for _, g := range s.gs {
+		if g.id != 0 && !g.done {
+			n++
+		}
+	}
+	return n
+}
+
+// ---- channels ----
 
 func (in *Interp) chanSend(c ChanV, v V) {
 	in.specAbortIf("chan op in region")
 	if c.C == nil {
 		in.unsupported("send on nil channel (blocks forever)")
 	}
-	if c.C.Closed {
+	ch := c.C
+	if ch.Closed {
 		in.goPanicStr("send on closed channel")
 	}
-	if len(c.C.Buf) < c.C.Cap {
-		ch := c.C
-		ch.Buf = append(ch.Buf, v)
-		in.trailFn(func() { ch.Buf = ch.Buf[:len(ch.Buf)-1] })
+	s := in.ensureSched()
+	g := s.curG()
+	s.tick(g)
+	// a receiver is waiting: hand over directly
+	if len(ch.recvq) > 0 {
+		w := ch.recvq[0]
+		ch.recvq = ch.recvq[1:]
+		w.g.xval, w.g.xok = v, true
+		w.g.vc = joinVC(w.g.vc, g.vc)
+		g.vc = joinVC(g.vc, w.g.vc) // rendezvous synchronises both ways
+		w.g.blocked = false
+		s.tick(g) // what follows is not ordered before the receiver's next steps
+		s.tick(w.g)
 		return
 	}
-	in.unsupported("blocking channel send")
+	if len(ch.Buf) < ch.Cap {
+		ch.Buf = append(ch.Buf, v)
+		ch.bufVC = append(ch.bufVC, append([]int{}, g.vc...))
+		s.tick(g)
+		return
+	}
+	// block until a receiver arrives
+	ch.sendq = append(ch.sendq, &chanWaiter{g: g, val: v})
+	s.block()
 }
 
 func (in *Interp) chanRecv(c ChanV) (V, bool) {
@@ -47,18 +400,41 @@ func (in *Interp) chanRecv(c ChanV) (V, bool) {
 		in.unsupported("recv on nil channel")
 	}
 	ch := c.C
+	s := in.ensureSched()
+	g := s.curG()
+	s.tick(g)
 	if len(ch.Buf) > 0 {
 		v := ch.Buf[0]
-		old := ch.Buf
 		ch.Buf = append([]V{}, ch.Buf[1:]...)
-		in.trailFn(func() { ch.Buf = old })
+		if len(ch.bufVC) > 0 {
+			g.vc = joinVC(g.vc, ch.bufVC[0])
+			ch.bufVC = ch.bufVC[1:]
+		}
 		return v, true
 	}
+	if len(ch.sendq) > 0 {
+		w := ch.sendq[0]
+		ch.sendq = ch.sendq[1:]
+		g.vc = joinVC(g.vc, w.g.vc)
+		w.g.vc = joinVC(w.g.vc, g.vc)
+		w.g.blocked = false
+		s.tick(g)
+		s.tick(w.g)
+		return w.val, true
+	}
 	if ch.Closed {
+		g.vc = joinVC(g.vc, ch.closeVC)
 		return in.zero(ch.ET), false
 	}
-	in.unsupported("blocking channel recv")
-	return nil, false
+	ch.recvq = append(ch.recvq, &chanWaiter{g: g})
+	g.xval, g.xok = nil, false
+	s.block()
+	if g.xval == nil && !g.xok {
+		// woken by close
+		g.vc = joinVC(g.vc, ch.closeVC)
+		return in.zero(ch.ET), false
+	}
+	return g.xval, g.xok
 }
 
 func (in *Interp) chanClose(c ChanV) {
@@ -66,28 +442,36 @@ func (in *Interp) chanClose(c ChanV) {
 	if c.C == nil {
 		in.goPanicStr("close of nil channel")
 	}
-	if c.C.Closed {
+	ch := c.C
+	if ch.Closed {
 		in.goPanicStr("close of closed channel")
 	}
-	ch := c.C
+	s := in.ensureSched()
+	g := s.curG()
+	s.tick(g)
 	ch.Closed = true
-	in.trailFn(func() { ch.Closed = false })
+	ch.closeVC = append([]int{}, g.vc...)
+	s.tick(g)
+	for _, w := range ch.recvq {
+		w.g.xval, w.g.xok = nil, false
+		w.g.blocked = false
+	}
+	ch.recvq = nil
 }
 
 func (in *Interp) selectOp(fr *Frame, x *ssa.Select) V {
-	// non-blocking select over buffered channels only
 	for i, st := range x.States {
 		ch := in.get(fr, st.Chan).(ChanV)
 		if ch.C == nil {
 			continue
 		}
 		if st.Dir == types.SendOnly {
-			if len(ch.C.Buf) < ch.C.Cap && !ch.C.Closed {
+			if (len(ch.C.Buf) < ch.C.Cap || len(ch.C.recvq) > 0) && !ch.C.Closed {
 				in.chanSend(ch, in.get(fr, st.Send))
 				return in.selectResult(x, i, true, nil)
 			}
 		} else {
-			if len(ch.C.Buf) > 0 || ch.C.Closed {
+			if len(ch.C.Buf) > 0 || ch.C.Closed || len(ch.C.sendq) > 0 {
 				v, ok := in.chanRecv(ch)
 				return in.selectResult(x, i, ok, v)
 			}
@@ -112,4 +496,45 @@ func (in *Interp) selectResult(x *ssa.Select, idx int, recvOk bool, recv V) V {
 		}
 	}
 	return r
+}
+
+// ---- mutexes ----
+
+func (in *Interp) mutexLock(p Ptr) {
+	if in.sched == nil || len(in.sched.gs) < 2 {
+		return
+	}
+	s := in.sched
+	g := s.curG()
+	m := s.mutexes[p.C]
+	if m == nil {
+		m = &simMutex{}
+		s.mutexes[p.C] = m
+	}
+	for m.owner != nil && m.owner != g {
+		m.waiters = append(m.waiters, g)
+		s.block()
+	}
+	m.owner = g
+	g.vc = joinVC(g.vc, m.vc)
+}
+
+func (in *Interp) mutexUnlock(p Ptr) {
+	if in.sched == nil || len(in.sched.gs) < 2 {
+		return
+	}
+	s := in.sched
+	g := s.curG()
+	m := s.mutexes[p.C]
+	if m == nil {
+		return
+	}
+	s.tick(g)
+	m.vc = append([]int{}, g.vc...)
+	s.tick(g)
+	m.owner = nil
+	for _, w := range m.waiters {
+		w.blocked = false
+	}
+	m.waiters = nil
 }
